@@ -20,6 +20,9 @@ DUR = r'unwrap_or_default\(call:SystemTime::duration_since\(now, call:TracerStat
 def run(chk, tier):
     prog = program(crates=('core',))
     chk.explanation = __doc__
+    # what the policy reads — received_time, target_found — is written by complete_probe exactly as the transition table says (C03.R4, imported)
+    from ..report import run_sub
+    run_sub(chk, 'c03', 'C03.', {'R4'})
     chk.assumptions += ['tracing macros have no effect on program state (their branches are not followed)',
                         'SystemTime::now is the only clock; Duration ordering is std\'s']
     eng0 = Engine(prog, inline_depth=0)
